@@ -149,4 +149,38 @@ def leaves : Resp → List (String × FVal)
   | .transferExit rec => [("transfer_response_parameter_record", .bytes rec)]
   | .rawPos _ => []
 
+/-! ### the class-level entry points: `<Response>.from_pdu` and `<PositiveResponse>.parse_static`
+
+  `from_pdu` on a class = that class's `_check_pdu` (length gate, response service id, sub-function gates) and then its
+  `_from_pdu` - what the typed helpers of the client and `parse_static` callers run, without the registry dispatch. -/
+
+/-- `Cls.from_pdu(b)` for the registry class `e` -/
+def fromPduE (e : Entry) (b : Bytes) : Except Reject Resp :=
+  match lenGate e b with
+  | .error r => .error r
+  | .ok () =>
+    match b with
+    | [] => .error .empty
+    | s :: _ =>
+      if s.toNat ≠ e.rsid then .error .format          -- "Service ID mismatch" / "Not a negative response"
+      else match subGate e b with
+        | .error r => .error r
+        | .ok () => parseKind e.kind b
+
+/-- `from_pdu` by class name (`none`: not a class of the registry) -/
+def fromPdu (cls : String) (b : Bytes) : Option (Except Reject Resp) :=
+  (registry.find? (fun e => e.cls == cls)).map fun e => fromPduE e b
+
+/-- the registry row of `NegativeResponse` -/
+def negEntry : Entry := ⟨"NegativeResponse", .neg, 0x7F, false, none, false, 3, some 3⟩
+
+/-- `Cls.parse_static(b)`: a first byte 7F goes to `NegativeResponse.from_pdu`, everything else to `Cls.from_pdu` -/
+def parseStaticE (e : Entry) (b : Bytes) : Except Reject Resp :=
+  match b with
+  | [] => .error .empty
+  | s :: _ => if s = 0x7F then fromPduE negEntry b else fromPduE e b
+
+def parseStatic (cls : String) (b : Bytes) : Option (Except Reject Resp) :=
+  (registry.find? (fun e => e.cls == cls)).map fun e => parseStaticE e b
+
 end Gallia.UdsResp
